@@ -193,6 +193,10 @@ def _stream_ops(rng, paths, nstreams, nops):
     for _ in range(nops):
         k = rng.randint(1, min(6, max(1, len(paths) + 1)))
         chosen = [paths[rng.randrange(len(paths))] for _ in range(k)]
+        if rng.random() < 0.15:  # the uri is the path AS GIVEN, whatever its spelling
+            i = rng.randrange(len(chosen))
+            head, _, tail = chosen[i].rpartition("/")
+            chosen[i] = head + rng.choice(["//", "/./"]) + tail
         r = rng.random()
         cons = {"k": "drain"} if r < 0.7 else {"k": "take", "n": rng.randint(0, 6), "close": rng.random() < 0.5}
         ops.append({"op": "stream", "s": rng.randrange(nstreams), "paths": chosen, "consumer": cons})
